@@ -504,6 +504,10 @@ VSsetname(int32       vkey, /* IN: Vdata key */
     if (vs == NULL)
         HGOTO_ERROR(DFE_BADPTR, FAIL);
 
+    /* only a vdata attached with write access may be renamed */
+    if (vs->access != 'w')
+        HGOTO_ERROR(DFE_BADACC, FAIL);
+
     /* get current length of vdata name */
     curr_len = (int32)strnlen(vs->vsname, VSNAMELENMAX + 1);
 
